@@ -108,8 +108,24 @@ FillFrom == LET vals == Vals(NumBins(g))
                 std == StdLayout(g) IN
             Did(Write(store, LAMBDA c : TRUE, LAMBDA c : Pos(g, std, c) + 1, vals), StreamFillFrom(g, L, file, vals))
 
+\* sapyb(a, y, b) (and, by the same route, the element-wise operators): read-modify-write of every segment; the operand y
+\* is another array of the same geometry.  Needs the data to be there: pre-sized streams only.
+OperandY == [c \in Bins(g) |-> 1 + (Tang(c) - g.minTang) + 2 * (View(c) - g.minView) + (Ax(c) - MinAx(g, Seg(c)))]
+Sapyb == /\ ~fresh
+         /\ Did(Xapyb(store, 2, OperandY, 3), StreamSapyb(g, L, file, 2, OperandY, 3))
+\* fill(ProjData) from a source with one more segment at either end (one axial position each)
+WideGeo == [g EXCEPT !.minSeg = g.minSeg - 1, !.maxSeg = g.maxSeg + 1, !.ax = << << 0, 0 >> >> \o g.ax \o << << 0, 0 >> >>]
+FillWide == LET gs == WideGeo
+                ls == StdLayout(gs)
+                src == [c \in Bins(gs) |-> (cnt + 1) * 100 + Pos(gs, ls, c) + 1]
+                vals == [i \in 1..NumBins(gs) |-> (cnt + 1) * 100 + i] IN
+            /\ cnt = 0                      \* (as the first request of a history: keeps the model small)
+            /\ g.minSeg = -g.maxSeg         \* (the standard sequence of the source is defined around segment 0)
+            /\ SourceCovers(g, gs)
+            /\ Did(FilledFromSource(g, gs, vals), StreamFillSource(g, L, file, src))
+
 Next == /\ cnt < Depth
-        /\ (SetBin \/ SetSino \/ SetView \/ SetSegV \/ SetSegS \/ SetRel \/ Fill \/ FillFrom)
+        /\ (SetBin \/ SetSino \/ SetView \/ SetSegV \/ SetSegS \/ SetRel \/ Fill \/ FillFrom \/ Sapyb \/ FillWide)
 Spec == Init /\ [][Next]_vars
 
 \* "no other bin changes ... whatever the storage order, segment order in the stream ... or backing store",
@@ -122,6 +138,11 @@ InvSize == Len(file) <= NumBins(g) /\ (~fresh => Len(file) = NumBins(g))
 InvT1 == cnt = 0 => T1(g, L)
 InvT2 == cnt = 0 => T2(g)
 InvT3 == cnt = 0 => T3(g)
+\* get_subset: the geometry of a subset of the views (here: the last view alone; all views) is again an array whose standard
+\* layout is a bijection, so SubsetOk determines the result completely
+InvSubset == cnt = 0 =>
+  \A views \in { << g.maxView >>, [i \in 1..NV(g) |-> g.maxView - i + 1] } :
+     LET gs == SubsetGeo(g, views) IN T1(gs, StdLayout(gs))
 \* reading back through every other path (projections of the store are total and well indexed)
 InvRead == cnt = Depth =>
   \A s \in Segs(g), k \in g.minTof..g.maxTof :
